@@ -62,7 +62,18 @@ def _mixture(d, ctx, kind, **kw):
     # out elsewhere, in another precision)
     g, span, mode = gains(d, rng, (*case.lead, case.N, 1), complex_obs,
                           prefer='near-unity' if pre_normalised else None)
-    scaled = case.copy(y=case.y * g)
+    ys = case.y * g
+    if d.epoch >= 3 and d.aux(42).integers(0, 5) == 0:
+        # a recording normalised to unit average power as a whole (a common
+        # pre-processing step): the squared norms of the vectors sum to their
+        # number, although no single vector has unit norm
+        tot = float(np.sum(np.abs(ys.astype(np.complex128 if complex_obs else np.float64)) ** 2))
+        cnt = int(np.prod(ys.shape[:-1]))
+        if np.isfinite(tot) and tot > 0 and mode in ('narrow', 'near-unity'):
+            ys = ys * np.sqrt(cnt / tot)
+            ys = ys * np.sqrt(cnt / float(np.sum(np.abs(ys) ** 2)))
+            ctx.label('unit-average-power')
+    scaled = case.copy(y=ys)
     if kind == 'vmfcacgmm':
         ge, _, _ = gains(d, rng, (*case.lead, case.N, 1), False)
         scaled.emb = case.emb * ge
